@@ -221,3 +221,19 @@ def r4(ctx):
             ok = t.elt in (want, want2)
         ctx.check(ok, fe, "the mask is built from the stacked lengths len(series) - W + 1", line=c.node.lineno, role="mask:sizes",
                   expected="[len(s) - window_size + 1 for s in data_series]", found=str(t)[:140])
+
+
+@rule("C07", "R5", "TERM", "the labelling kernel honours a per-pair price: zero entries make the boundary pairs free, and the optimum is over within-series pairs only")
+def r5(ctx):
+    from . import c01
+    c01.r1(ctx)
+    c01.r2(ctx)
+    c01.r3(ctx)
+    c01.r4(ctx)
+    c01.r5(ctx)
+
+
+@rule("C07", "R6", "RANGE", "each series is stacked exactly (no window mixes two series; no series loses or gains rows)")
+def r6(ctx):
+    from .c10 import stack_obligations
+    stack_obligations(ctx)
